@@ -254,3 +254,56 @@ def flows_to_place(fn, local, target_str, depth=0, seen=None):
             if not s["dest"]["proj"] and flows_to_place(fn, s["dest"]["local"], target_str, depth + 1, seen):
                 return True
     return False
+
+
+def simp(e):
+    """Simplify an expression for provenance comparisons: peel `?` plumbing
+    (`Try::branch(x)@Continue.0`, `map_err(x, _)`), references, clones and other
+    transparent calls."""
+    from core import is_transparent
+
+    if not isinstance(e, tuple) or not e:
+        return e
+    k = e[0]
+    if k == "ref":
+        return simp(e[2])
+    if k == "proj":
+        base = simp(e[1])
+        pj = e[2]
+        # drop the `?` continuation projection
+        pj2 = pj.replace("@Continue.0", "").replace("@Ready.0", "")
+        while pj2.startswith(".*"):
+            pj2 = pj2[2:]
+        if not pj2:
+            return base
+        if base[0] == "place":
+            return ("place", base[1] + pj2, e[3])
+        return ("proj", base, pj2, e[3])
+    if k == "call":
+        nm = callee_name(e) or ""
+        last = nm.split("::")[-1]
+        if (is_transparent(e) or last in ("map_err", "ok_or", "ok_or_else")) and e[3]:
+            return simp(e[3][0])
+        return ("call", e[1], e[2], tuple(simp(a) for a in e[3]), e[4], e[5])
+    if k == "cast":
+        return ("cast", e[1], simp(e[2]), e[3])
+    if k == "binop":
+        return ("binop", e[1], simp(e[2]), simp(e[3]))
+    if k == "unop":
+        return ("unop", e[1], simp(e[2]))
+    if k == "agg":
+        return e[:5] + (tuple(simp(a) for a in e[5]),)
+    if k == "phi":
+        return ("phi", e[1], tuple(simp(a) for a in e[2]))
+    if k == "discr":
+        return ("discr", simp(e[1]))
+    return e
+
+
+def sstr(e):
+    return expr_str(simp(e))
+
+
+def var_def_strs(prog, fn, name, user_stop=True):
+    eb = ExprBuilder(prog, fn, user_stop=user_stop)
+    return [sstr(x) for x in eb.var_defs(name)]
